@@ -83,10 +83,12 @@ def dispatch_symbolic(eng: Engine, func, args, kwargs):
         return out
     if h is None:
         raise UnsupportedOp(f"no transfer function for {func} (args: {[type(a).__name__ for a in args]})")
+    eng._skip_check = False
     h(eng, func, args, kwargs, out, pre)
-    for o in tree_flatten(out)[0]:
-        if isinstance(o, torch.Tensor):
-            eng.check_tensor(o, str(func))
+    if not eng._skip_check:
+        for o in tree_flatten(out)[0]:
+            if isinstance(o, torch.Tensor):
+                eng.check_tensor(o, str(func))
     return out
 
 
@@ -260,6 +262,23 @@ def _cmp_handler(name, f):
     def h(eng, func, args, kwargs, out, pre):
         a, b = obj(pre.a(0)), obj(pre.a(1, "other"))
         eng.set_terms(out, vec(f, 2)(a, b))
+        if out.dtype == torch.bool and eng.check:
+            # comparisons of values that are equal up to float rounding may come out either way in the kernel
+            shape = tuple(out.shape)
+            aa, bb = np.broadcast_to(a, shape), np.broadcast_to(b, shape)
+            with eng.suspended():
+                vals = out.detach().cpu().numpy()
+            sh = eng._view(out)
+            for idx in (np.ndindex(*shape) if shape else [()]):
+                t = sh[idx]
+                if t is None:
+                    continue
+                if bool(eng.evalf(t)) != bool(vals[idx]):
+                    va, vb = eng.evalf(tm.num(aa[idx])), eng.evalf(tm.num(bb[idx]))
+                    if abs(va - vb) <= 1e-5 * (1 + abs(va) + abs(vb)):
+                        eng.notes.append(f"comparison at float resolution ({name}): kernel and exact arithmetic disagree; term kept")
+                        eng._skip_check = True
+                    break
 
     HANDLERS[name] = h
 
